@@ -144,6 +144,22 @@ func runC13(c *fw.Ctx) {
 	}
 	c.Cases("pinned", len(pins), true, func(i int, r *rng.R) { c13Case(c, r, pins[i]) })
 	historyCases(c, "history", 600, 60000, probeNative)
+	c.Cases("deep", c.N(60, 3000), false, func(i int, r *rng.R) {
+		d := []int{10, 16, 17, 18, 33, 34, 35, 66, 67, 68, 137, 138, 139, 300}[r.Intn(14)]
+		t := spec.ListV(spec.IntV(1), spec.ObjV("leaf", spec.ListV()))
+		for j := 0; j < d; j++ {
+			switch r.Intn(4) {
+			case 0:
+				t = spec.ObjV("k", t, "s", spec.IntV(j))
+			case 1:
+				t = spec.ListV(t)
+			default:
+				t = spec.ListV(spec.IntV(j), t, spec.StrV("after"))
+			}
+		}
+		c.Count("deep_trees")
+		c13Case(c, r, t)
+	})
 	c.Cases("trees", c.N(2000, 1000000), false, func(i int, r *rng.R) {
 		c13Case(c, r, spec.GenTree(r, spec.Opts{MaxDepth: r.Range(1, 6), MaxWidth: r.Range(1, 5), ScalarBias: r.Range(3, 8), Wide: true}))
 	})
